@@ -142,3 +142,49 @@ fn c07_filter_mode_command_applied_exactly_once() {
 	kani::cover!(n == 2 && m1 != m2, "w:burst");
 	std::mem::forget(fx); std::mem::forget(w);
 }
+
+// tan spy: records the argument the coefficient computation hands to tan()
+static mut KV_TAN_ARG: f64 = 0.0;
+static mut KV_TAN_N: u32 = 0;
+fn kv_tan_spy(x: f64) -> f64 { unsafe { KV_TAN_ARG = x; KV_TAN_N += 1; } KV_TAN_1K_48K }
+
+// @h prop=C16,C13,C14 tier=quick kind=main timeout=600
+// @bounds a filter (cutoff 1 kHz) initialised at one device rate (8 k, 24 k, 44.1 k or 192 kHz), told about a change to another rate of that set, then one frame processed with the dt of the NEW rate; any small signal and state. Native replay: bit-identical output with a filter that was created at the new rate
+// @funcs Filter::process, Effect::init / Effect::on_change_sample_rate for Filter
+// @assume f64::tan replaced by a recording stand-in
+// @catches a cutoff in hertz that does not survive a device sample-rate change (coefficient derived from a rate cached at init instead of the rate in force): the argument of tan must be pi x cutoff x dt for the dt in force
+#[kani::proof]
+#[kani::unwind(3)]
+#[kani::stub(f64::tan, kv_tan_spy)]
+fn c16_filter_cutoff_uses_the_rate_in_force() {
+	let pick = |s: u8| match s % 4 { 0 => 8000u32, 1 => 24000, 2 => 44100, _ => 192000 };
+	let (a, b): (u8, u8) = (kani::any(), kani::any());
+	let (old_rate, new_rate) = (pick(a), pick(b));
+	let sm = || { let v: i8 = kani::any(); kani::assume(v >= -4 && v <= 4); v as f32 };
+	let (x, s1, s2) = (sm(), sm(), sm());
+	let mut fx = kv_filter(FilterMode::LowPass, 1.0, Frame::from_mono(s1), Frame::from_mono(s2));
+	crate::effect::Effect::init(&mut fx, old_rate, 128);
+	crate::effect::Effect::on_change_sample_rate(&mut fx, new_rate);
+	let dt = 1.0 / new_rate as f64;
+	let c: Arena<crate::clock::Clock> = Arena::new(0);
+	let m: Arena<Box<dyn crate::modulator::Modulator>> = Arena::new(0);
+	let l: Arena<crate::listener::Listener> = Arena::new(0);
+	let info = Info::new(&c, &m, &l, None);
+	let mut buf = [Frame::from_mono(x)];
+	fx.process(&mut buf, dt, &info);
+	if cfg!(kv_native) {
+		let mut fresh = kv_filter(FilterMode::LowPass, 1.0, Frame::from_mono(s1), Frame::from_mono(s2));
+		crate::effect::Effect::init(&mut fresh, new_rate, 128);
+		let mut buf2 = [Frame::from_mono(x)];
+		fresh.process(&mut buf2, dt, &info);
+		assert!(buf[0].left.to_bits() == buf2[0].left.to_bits() && fx.ic1eq.left.to_bits() == fresh.ic1eq.left.to_bits(), "native: same output as a filter created at the new rate");
+		return;
+	}
+	let want = std::f64::consts::PI * 1000.0 * dt;
+	unsafe {
+		assert!(KV_TAN_N == 1, "one coefficient computation per frame");
+		assert!((KV_TAN_ARG - want).abs() <= 1e-9 * want, "g = tan(pi x cutoff / sample rate in force)");
+	}
+	kani::cover!(old_rate != new_rate, "witness");
+	std::mem::forget(fx); std::mem::forget(c); std::mem::forget(m); std::mem::forget(l);
+}
